@@ -424,6 +424,9 @@ class _KInARow(Constraint):
         constraints = cast(List[Constraint], [self])
 
         level = replacements.get(self.level, self.level)
+        if isinstance(level, list):
+            # A whole factor is replaced by a pair; the first one has the original level names
+            level = level[0]
 
         # Generate the constraint for each level in the factor.
         if isinstance(level, Factor):
